@@ -36,9 +36,12 @@ CallsOf(x) == IF x = "c" THEN CallsC ELSE CallsS
 AdvOf(x) == IF x = "c" THEN AdvC ELSE AdvS
 
 \* header lists travel by catalogue name in steps; the model works on the token sequences
-ResolveCall(c) == IF "h" \in DOMAIN c THEN [c EXCEPT !.h = HL[@]] ELSE c
+\* (recorded executions may carry a header list that is not in the catalogue: its tokens are then in field hx)
+ResolveCall(c) == IF "hx" \in DOMAIN c THEN [c EXCEPT !.h = c.hx]
+                  ELSE IF "h" \in DOMAIN c THEN [c EXCEPT !.h = HL[@]] ELSE c
+FrameTokens(f) == IF "hx" \in DOMAIN f THEN f.hx ELSE HL[f.h]
 \* frames of the harness peer: its encoder uses the table size the model says a conforming peer uses
-ResolveFrame(f, ep) == IF "h" \in DOMAIN f THEN [f EXCEPT !.h = HL[@]] @@ [ets |-> ep.peerEnc] ELSE f
+ResolveFrame(f, ep) == IF "h" \in DOMAIN f THEN [f EXCEPT !.h = FrameTokens(f)] @@ [ets |-> ep.peerEnc] ELSE f
 
 \* ---------------------------------------------------------------- constructors for scenario alphabets
 AH(sid, h, es)        == [t |-> "HEADERS", sid |-> sid, es |-> es, h |-> h, pr |-> <<>>, blk |-> "ok"]
@@ -236,9 +239,11 @@ P_C10_OutboundWithinPeerLimit ==
 IsSetNoAck(f) == f.t = "SET" /\ ~f.ack
 IsSetAck(f) == f.t = "SET" /\ f.ack
 IsRSet(e) == e.t = "RSet"
+IsGoAway(f) == f.t = "GOAWAY"
+\* (a GOAWAY received later in the same call discards the unsent output, C19: the ACK count of such calls is not constrained)
 P_C11_PeerSettingsAckedOnce ==
   (HasSrc /\ IsRecv /\ ROk /\ ~NoFlush(last) /\ Pre.out = <<>>) =>
-     /\ Count(OutF, IsSetAck) = Count(InFrames, IsSetNoAck)
+     /\ Count(InFrames, IsGoAway) = 0 => Count(OutF, IsSetAck) = Count(InFrames, IsSetNoAck)
      /\ Count(last.p.e, IsRSet) = Count(InFrames, IsSetNoAck)
 \* C12: update_settings succeeds exactly on valid values; a bad received value gives the mandated code
 AllValid(pairs) == \A i \in 1..Len(pairs) : ValidateSetting(pairs[i][1], pairs[i][2]) = 0
@@ -268,7 +273,7 @@ InTokOK(t) == ~t.nu /\ ~t.ne /\ ~t.nw /\ ~t.vlead /\ ~t.vtrail /\ ~BadConn(t) /\
 IsHdrEvent(e) == e.t \in {"Req", "Resp", "Info", "Trl", "Push"}
 P_C15_DeliveredBlocksConformant ==
   (HasSrc /\ last.a = "recv" /\ Len(last.fs) = 1 /\ last.fs[1].t \in {"HEADERS", "PP"} /\ Pre.cfg.vi) =>
-     LET h == CombineCookies(HL[last.fs[1].h]) IN
+     LET h == CombineCookies(FrameTokens(last.fs[1])) IN
      /\ (ROk /\ Count(last.p.e, IsHdrEvent) > 0) => \A j \in 1..Len(h) : InTokOK(h[j]) /\ ~OutOfSeq(h, j)
      /\ (\E j \in 1..Len(h) : ~InTokOK(h[j]) \/ OutOfSeq(h, j)) => Count(last.p.e, IsHdrEvent) = 0
 \* C16: DATA against content-length
@@ -282,7 +287,6 @@ P_C16_ContentLength ==
         /\ (ROk /\ Count(last.p.e, LAMBDA e : e.t = "Data") > 0) => tot <= s.ecl
 \* C18: a receive that raises a ProtocolError emits exactly one GOAWAY carrying the exception's code and the
 \* highest peer-initiated stream id; the code for an undecodable block is excused by the marked deviation
-IsGoAway(f) == f.t = "GOAWAY"
 P_C18_OneGoAwayWithCode ==
   (HasSrc /\ IsRecv /\ ~ROk /\ last.p.r.c \in ProtocolErrors /\ ~NoFlush(last) /\ Pre.out = <<>>) =>
      /\ Count(OutF, IsGoAway) = 1
